@@ -79,22 +79,22 @@ func scenarios(tier string) []scenario {
 	badcb := func(b bspec) bspec { b.Delta = 1; b.Invalid = "coinbase-amount"; return b }
 	// live guard (C30's regime): trunk of 9 delivered up front (L=3), then a heavier fork rooted
 	// at height 4 (6 blocks, detaches 5: above L and shallower than the depth rule, so the node
-	// must switch) and a second one rooted at 3 = L (7 blocks: the exception applies, either
-	// answer is accepted), delivered in every order
+	// must switch), delivered in every order; thorough adds a fork rooted at 3 = L (the
+	// exception applies: either answer is accepted) and a short one rooted at 8
 	guardLive := scenario{Name: "guard-live", Guard: true, Pre: 9, Blocks: []bspec{
 		T("T1", "g"), T("T2", "T1"), T("T3", "T2"), T("T4", "T3"), T("T5", "T4"), T("T6", "T5"), T("T7", "T6"), T("T8", "T7"), T("T9", "T8"),
 		T("F5", "T4"), T("F6", "F5"), T("F7", "F6"), T("F8", "F7"), T("F9", "F8"), T("F10", "F9")}}
 	trunk3 := []bspec{T("T1", "g"), T("T2", "T1", "tg"), T("T3", "T2", "u1")}
 	q := []scenario{
-		{"valid-heavier-fork", append(append([]bspec{}, trunk3...),
+		{Name: "valid-heavier-fork", Blocks: append(append([]bspec{}, trunk3...),
 			T("A3", "T2", "u2"), T("A4", "A3"), T("B3", "T2"))},
-		{"invalid-pos1-double-spend", append(append([]bspec{}, trunk3...),
+		{Name: "invalid-pos1-double-spend", Blocks: append(append([]bspec{}, trunk3...),
 			bad(T("A3", "T2", "tg2"), "double-spend"), T("A4", "A3"), T("B3", "T2", "u2"))},
-		{"invalid-pos2-coinbase", []bspec{T("T1", "g"), T("T2", "T1"), T("T3", "T2"),
+		{Name: "invalid-pos2-coinbase", Blocks: []bspec{T("T1", "g"), T("T2", "T1"), T("T3", "T2"),
 			T("A2", "T1", "tg"), badcb(T("A3", "A2", "u1")), T("A4", "A3")}},
-		{"invalid-pos3-double-spend", []bspec{T("T1", "g"), T("T2", "T1"), T("T3", "T2"),
+		{Name: "invalid-pos3-double-spend", Blocks: []bspec{T("T1", "g"), T("T2", "T1"), T("T3", "T2"),
 			T("A2", "T1", "tg"), T("A3", "A2"), bad(T("A4", "A3", "tg2"), "double-spend")}},
-		{"equal-work-ties", append(append([]bspec{}, trunk3...),
+		{Name: "equal-work-ties", Blocks: append(append([]bspec{}, trunk3...),
 			T("B3", "T2", "u2"), T("C2", "T1"), T("C3", "C2", "tg"))},
 		// two branches overtaking each other in turn: delivered A2, B2 B3, A3 A4 the node
 		// switches A -> B -> A (the second reorganisation re-attaches blocks it detached before)
@@ -106,26 +106,26 @@ func scenarios(tier string) []scenario {
 		return q
 	}
 	return []scenario{
-		{"valid-heavier-fork+", append(append([]bspec{}, trunk4...),
+		{Name: "valid-heavier-fork+", Blocks: append(append([]bspec{}, trunk4...),
 			T("A3", "T2", "u2"), T("A4", "A3"), T("A5", "A4"), T("B4", "T3"), T("T5", "T4"), T("A6", "A5"))},
-		{"invalid-pos1-double-spend+", append(append([]bspec{}, trunk4...),
+		{Name: "invalid-pos1-double-spend+", Blocks: append(append([]bspec{}, trunk4...),
 			bad(T("A3", "T2", "tg2"), "double-spend"), T("A4", "A3"), T("A5", "A4"), T("B4", "T3"), T("C3", "T2", "u2"), T("C4", "C3"))},
-		{"invalid-pos2-coinbase+", append(append([]bspec{}, trunk4...),
+		{Name: "invalid-pos2-coinbase+", Blocks: append(append([]bspec{}, trunk4...),
 			T("A3", "T2", "u2"), badcb(T("A4", "A3")), T("A5", "A4"), T("B4", "T3"), T("T5", "T4"), T("A6", "A5"))},
-		{"invalid-pos3-double-spend+", []bspec{T("T1", "g"), T("T2", "T1"), T("T3", "T2"),
+		{Name: "invalid-pos3-double-spend+", Blocks: []bspec{T("T1", "g"), T("T2", "T1"), T("T3", "T2"),
 			T("A2", "T1", "tg"), T("A3", "A2"), bad(T("A4", "A3", "tg2"), "double-spend"), T("A5", "A4"),
 			T("T4", "T3"), T("B3", "T2"), T("A6", "A5")}},
-		{"equal-work-ties+", []bspec{T("T1", "g"), T("T2", "T1", "tg"), T("T3", "T2"), T("T4", "T3"),
+		{Name: "equal-work-ties+", Blocks: []bspec{T("T1", "g"), T("T2", "T1", "tg"), T("T3", "T2"), T("T4", "T3"),
 			T("B4", "T3", "u1"), T("C3", "T2", "u2"), T("C4", "C3"), T("C5", "C4"), T("B5", "B4"), T("T5", "T4")}},
-		{"invalid-pos2-double-spend", append(append([]bspec{}, trunk4...),
+		{Name: "invalid-pos2-double-spend", Blocks: append(append([]bspec{}, trunk4...),
 			T("A3", "T2", "u2"), bad(T("A4", "A3", "tg2"), "double-spend"), T("A5", "A4"), T("B4", "T3"), T("A6", "A5"))},
-		{"there-and-back+", []bspec{T("T1", "g"), T("T2", "T1", "tg"), T("A3", "T2", "u1"), T("B3", "T2", "u2"), T("B4", "B3"),
+		{Name: "there-and-back+", Blocks: []bspec{T("T1", "g"), T("T2", "T1", "tg"), T("A3", "T2", "u1"), T("B3", "T2", "u2"), T("B4", "B3"),
 			T("A4", "A3"), T("A5", "A4"), T("B5", "B4"), T("B6", "B5"), T("C3", "T2")}},
 		guardLive,
 		{Name: "guard-live-at-L", Guard: true, Pre: 9, Blocks: []bspec{
 			T("T1", "g"), T("T2", "T1"), T("T3", "T2"), T("T4", "T3"), T("T5", "T4"), T("T6", "T5"), T("T7", "T6"), T("T8", "T7"), T("T9", "T8"),
 			T("E4", "T3"), T("E5", "E4"), T("E6", "E5"), T("E7", "E6"), T("E8", "E7"), T("E9", "E8"), T("E10", "E9"), T("G9", "T8"), T("G10", "G9")}},
-		{"invalid-pos1-coinbase", append(append([]bspec{}, trunk4...),
+		{Name: "invalid-pos1-coinbase", Blocks: append(append([]bspec{}, trunk4...),
 			badcb(T("A3", "T2")), T("A4", "A3"), T("A5", "A4"), T("B4", "T3"), T("C3", "T2"))},
 	}
 }
@@ -528,6 +528,22 @@ func (s *system) Apply(op string) *chainkit.Fail {
 			continue
 		}
 		if x.work.Cmp(s.workOfChain(post)) > 0 {
+			if s.sc.Guard {
+				// the property's exception: switching would detach a block at or below the last
+				// irreversible height — widened to what State.IsIrreversible documents (fork point
+				// at or below L; under DPOS six or more blocks to detach), so that only a refusal
+				// outside the guard's own rules counts
+				xc := s.t.chainOf(x)
+				r := 0
+				for r < len(post) && r < len(xc) && post[r] == xc[r] {
+					r++
+				}
+				l := s.n.Chain.GetState().GetLastIrreversibleHeight()
+				if l > 0 && uint32(len(post)) > s.n.Params.CRCOnlyDPOSHeight && (uint32(r) <= l || len(post)-r >= 6) {
+					s.c["heavier_branch_exempt_by_irreversibility"]++
+					continue
+				}
+			}
 			if reorg && err != nil && s.strandedBelowInvalid(post) {
 				// same defect as the failed-switch clause, reached while orphans were processed
 				return chainkit.Failf("C12|failed-switch|node-left-on-prefix-of-invalid-branch",
@@ -795,7 +811,7 @@ func main() {
 		"samples":                       samples,
 	}
 	r.Assume = append(r.Assume,
-		"pure PoW era parameters: the irreversibility exception of the property never applies (CRCOnlyDPOSHeight far above the explored heights); C30 covers it",
+		"all scenarios but guard-live* run with pure PoW era parameters, where the irreversibility exception never applies; guard-live* use C30's compressed DPoS regime (unconfirmed blocks through BlockChain.ProcessBlock) and exempt a heavier branch only where State.IsIrreversible's documented rules refuse it (fork point <= L, or >= 6 blocks to detach under DPOS); C30 checks the guard itself",
 		"constant difficulty (regnet PowLimitBits 0x207fffff): work differs through block count only",
 		"ties are resolved first-seen, as connectBestChain documents; the oracle accepts either tied chain but no change between them")
 	r.Finish(cov)
